@@ -22,7 +22,7 @@ ASSUMPTIONS = ["source callbacks return the requested bytes except at end of inp
 RULE = ("four stream kinds x {all truncations of small archives, mutated archives, archives with extreme length fields (level-3 header "
         "length to 2^32-1, level-1 extended-header chains, 4 GiB member sizes), -pm1- members with tiny data and large declared length, "
         "many-member Mac archives with large-window methods} x call patterns (listing only, read, check, extract). Judge: every call "
-        "returns (per-call alarm), source requests <= 2*|A| + 16*ops + 64, bytes pulled <= |A|, peak heap <= 8 MiB + 2*|A|; C = model. "
+        "returns (per-call alarm), source requests <= 2*|A| + 16*ops + 64, bytes pulled <= |A|, peak heap <= 8 MiB + 2*|A|, bytes obtained by malloc/calloc <= 2 MiB*calls + 64*|A| + 4 MiB (a block copied as a whole on every extension is quadratic); C = model. "
         "non-trivial: truncated / extreme-field archive or a decode of >= 1 KiB")
 
 canon = A.canon_rdr
